@@ -7,6 +7,7 @@ import (
 	publictypes "lunar/engine/streams/public-types"
 	streamtypes "lunar/engine/streams/types"
 	"lunar/engine/utils/environment"
+	"lunar/engine/verifhook"
 	clock "lunar/toolkit-core/clock"
 	context_manager "lunar/toolkit-core/context-manager"
 	"lunar/toolkit-core/otel"
@@ -211,6 +212,7 @@ func (p *queueProcessor) tryProcessQueueItems() {
 			req.StopProcessing()
 			return
 		}
+		verifhook.Yield("queue.before_signal")
 		req.SetProcessedSuccess()
 	}
 }
@@ -384,6 +386,7 @@ func (p *queueProcessor) enqueueIfSlotAvailable(req *Request) bool {
 		return false
 	}
 
+	verifhook.Yield("queue.slot_checked")
 	currentSize := p.queue.Size()
 	if p.maxRedisQueueSize > -1 && p.maxRedisQueueSize <= currentSize {
 		// If the shared queue is full, we drop the request and not set to unlimited
@@ -517,6 +520,7 @@ func (p *queueProcessor) validateProcessingTimeoutIsGreaterTheTTL() error {
 }
 
 func (p *queueProcessor) removeRequest(reqID string) {
+	verifhook.Yield("queue.before_remove")
 	p.requestsWatcher.RemoveFromWatchList(reqID)
 	p.queue.Remove(reqID)
 }
